@@ -37,10 +37,10 @@ type Case struct {
 	Background bool   `json:"background"`
 	Strict     bool   `json:"strict"`
 	Locations  int    `json:"locations"`
-	Conf       bool   `json:"conf"`         // location 0 is also a configured crl_url
-	BadPrefix  bool   `json:"bad_prefix"`   // before the run, a refresh of location 0 failed signature verification
+	Conf       bool   `json:"conf"`          // location 0 is also a configured crl_url
+	BadPrefix  bool   `json:"bad_prefix"`    // before the run, a refresh of location 0 failed signature verification
 	Publish    int    `json:"publish_after"` // the new list is published after this many ops of goroutine 0 (<0 never)
-	Cleanup    bool   `json:"cleanup"`      // Cleanup runs while the goroutines are still busy
+	Cleanup    bool   `json:"cleanup"`       // Cleanup runs while the goroutines are still busy
 	Threads    [][]Op `json:"threads"`
 	Yield      []int  `json:"yield"` // microseconds slept at successive hook sites (cyclic); 0 = Gosched
 	Entries    int    `json:"entries"`
@@ -428,10 +428,10 @@ func globRace(prefix string) []string {
 }
 
 var spec = ev.Spec[Case]{
-	ID:  "C13",
-	Gen: genCase,
-	Run: runCase,
-	Rule: "rapid draws a concurrent scenario: 2..16 goroutines with 2..12 operations each from {handshake(one of 1..3 locations; probe listed in both lists / only in the new list / unlisted / listed but naming no CDP), refresh tick, forced (background-style) refresh, config-CRL update, OCSP lookup with a 50 ms cache while the responder flips, pause}, both back-ends, both fetch modes, strict or lenient, optionally location 0 also configured as crl_url, optionally the prefix state 'last refresh failed signature verification', publication of a new list at a drawn point, Cleanup during or after the run, list sizes 1..1500, and sleeps/yields at the verif hook sites. Each scenario runs in its own child process built with -race. Oracles: the race detector log is empty; the child exits normally (no fatal error, no panic); every API call returns within the watchdog; verdicts are ones a sequential order could produce (unlisted never revoked, new-only never revoked before publication, a handshake naming the CDP in fetch_actively mode never accepts a serial listed in both lists, no errors in lenient mode before shutdown). Non-trivial: >= 2 goroutines touch the same location and a writer (refresh / publication) is present. This explores schedules; it does not cover them.",
+	ID:          "C13",
+	Gen:         genCase,
+	Run:         runCase,
+	Rule:        "rapid draws a concurrent scenario: 2..16 goroutines with 2..12 operations each from {handshake(one of 1..3 locations; probe listed in both lists / only in the new list / unlisted / listed but naming no CDP), refresh tick, forced (background-style) refresh, config-CRL update, OCSP lookup with a 50 ms cache while the responder flips, pause}, both back-ends, both fetch modes, strict or lenient, optionally location 0 also configured as crl_url, optionally the prefix state 'last refresh failed signature verification', publication of a new list at a drawn point, Cleanup during or after the run, list sizes 1..1500, and sleeps/yields at the verif hook sites. Each scenario runs in its own child process built with -race. Oracles: the race detector log is empty; the child exits normally (no fatal error, no panic); every API call returns within the watchdog; verdicts are ones a sequential order could produce (unlisted never revoked, new-only never revoked before publication, a handshake naming the CDP in fetch_actively mode never accepts a serial listed in both lists, no errors in lenient mode before shutdown). Non-trivial: >= 2 goroutines touch the same location and a writer (refresh / publication) is present. This explores schedules; it does not cover them.",
 	Assumptions: []string{"the Go race detector is the oracle for data races; schedules are sampled, not enumerated"},
 }
 
